@@ -166,4 +166,11 @@ PROPS = {
         trusted_base=COMMON_TB + ["VarSpec.v is the SPECIFICATION of a valid input value / variables object (kind-level scalars: Int and Float as JSON numbers, ID as string; enum values; input-object keys among the schema's field names with absent members only where nullable; @oneOf exactly one non-null member)", 'Codegen.v and Serde.v tied to the real generator and to rustc+serde on every run (RunVars.corr_gen, corr_serde); Variables values are obtained by deserializing reference assignments (variables_derives = Deserialize) in the consumer crate and pass through the real Op::build_query and serde_json::to_value', "values that JSON cannot express are outside the model: a non-finite f64 is written as null by serde_json, also at a non-null Float position; custom scalars write whatever the consumer's type writes (serde_json::Value here)", 'an operation without variables serialises `variables: null` (unit struct), which GraphQL-over-HTTP treats as no variables: counted as the empty object'],
         assumptions=['programs whose module rustc refuses are not judged here (C02)'],
     ),
+    "C09": dict(
+        coq_props=['Properties/C09.v'],
+        run_modules=['RunC09.v'],
+        harness_cmd='c09',
+        trusted_base=COMMON_TB + ["Codegen.v and Serde.v tied to the real generator and to rustc+serde for every option variant (RunC09.corr_gen, corr_serde); variants with externally defined enums are judged on the consumer crate's observations only (the enum is the consumer's type, opaque to the model)", "extern enums and custom scalar types are supplied by the harness with the schema's value names / as serde_json::Value; error MESSAGES are not compared (they mention Rust identifiers), only accept/reject and the re-serialised JSON"],
+        assumptions=["a variant whose module rustc refuses is C02's subject"],
+    ),
 }
